@@ -1,6 +1,7 @@
 package main
 
 import (
+	"bytes"
 	"encoding/json"
 	"flag"
 
@@ -14,12 +15,17 @@ func inspectEvent(src string, sb []byte) Ev {
 	r := Ev{"type": "?", "isP2PKH": false, "isP2PK": false, "isP2SH": false, "isData": false, "isMulti": false, "isInscr": false,
 		"pkh": Ev{"ok": false, "h": []int{}}}
 	panics := []string{}
+	var cur *bscript.Script
 	call := func(name string, f func()) {
+		cur = nil
 		if p, msg := guard(f); p {
 			panics = append(panics, name+": "+msg)
+		} else if cur != nil && !bytes.Equal(*cur, sb) {
+			// a query is a pure function of the script: it must leave the bytes it inspects alone
+			panics = append(panics, name+": modifies the script it inspects")
 		}
 	}
-	mk := func() *bscript.Script { return bscript.NewFromBytes(append([]byte{}, sb...)) }
+	mk := func() *bscript.Script { cur = bscript.NewFromBytes(append([]byte{}, sb...)); return cur }
 	call("ScriptType", func() { r["type"] = mk().ScriptType() })
 	call("IsP2PKH", func() { r["isP2PKH"] = mk().IsP2PKH() })
 	call("IsP2PK", func() { r["isP2PK"] = mk().IsP2PK() })
